@@ -35,8 +35,8 @@ import (
 // its client dropped the TCP connection and several other clients were served.
 type lateResult struct {
 	ja3a, ja3b, ja4a, ja4b string
-	recA, recB            [32]byte
-	errs                  string
+	recA, recB             [32]byte
+	errs                   string
 }
 
 func lateReads(run *verdict.Run) {
